@@ -27,7 +27,7 @@ done
 
 cleanup() {
     git -C /repo worktree remove --force "$WT" >/dev/null 2>&1
-    rm -rf "$WT" "$BUILD" "$OUT"
+    if [ -n "${SENS_KEEP:-}" ]; then rm -rf "$WT" "$BUILD"; else rm -rf "$WT" "$BUILD" "$OUT"; fi
     git -C /repo worktree prune >/dev/null 2>&1
 }
 trap cleanup EXIT
